@@ -460,6 +460,19 @@ def edge_rules(run, db):
         return orig_m(v, name, args, kwargs, node)
     dom.method = method
     orig_e = dom.call_ext
+    orig_g, orig_s = dom.getattr, dom.subscript
+
+    def getattr_r(v, name, node):
+        if name == 'ndim' and dom.rat(v) is not None and dom.rat(v) == Rat(R.atom('r')):
+            return Const(2)           # the radial frequency grid of a 2-D spectrum
+        return orig_g(v, name, node)
+
+    def subscript_r(v, idx, node):
+        # one sample of the grid picked by position: some value of r, not its maximum unless the rule can show it (it cannot)
+        if dom.rat(v) is not None and dom.rat(v) == Rat(R.atom('r')) and isinstance(idx, Tup) and idx.items and all(isinstance(x, Const) and isinstance(x.v, int) for x in idx.items):
+            return dom.func_atom('sample_of_r_at', [Const(x.v) for x in idx.items])
+        return orig_s(v, idx, node)
+    dom.getattr, dom.subscript = getattr_r, subscript_r
 
     def call_ext(dotted, args, kwargs, node):
         if dotted in ('numpy.max', 'numpy.amax', 'numpy.nanmax') and len(args) == 1 and not kwargs and dom.rat(args[0]) is not None and dom.rat(args[0]) == Rat(R.atom('r')):
